@@ -38,6 +38,19 @@ NR == Len(SimpleRings)
 
 RingOK(r) == Len(r) >= 4 /\ r[1] = r[Len(r)] /\ SimplePath(r) /\ Area2(r) # 0
 
+\* ---------------- Mode "bigrings": parametric rings far longer than the enumerated walks (size-gated code paths); the verdict
+\* comes from the same predicates (RingCase): a comb of W teeth (W even) - simple; the same comb with one tooth reaching down to
+\* the bottom side (a vertex in the interior of a non-adjacent edge: touching, not crossing) - not simple; two staircase lobes
+\* drawn through a shared vertex (a vertex visited twice) - not simple
+Comb(W, t) == << <<0, 0>>, <<W, 0>>, <<W, 4>> >> \o [k \in 1 .. W - 1 |-> LET x == W - k IN <<x, IF x % 2 = 1 THEN (IF x = t THEN 0 ELSE 2) ELSE 4>>]
+              \o << <<0, 4>>, <<0, 0>> >>
+RECURSIVE StairSteps(_, _)
+StairSteps(n, k) == IF k > n THEN <<>> ELSE << <<n - k + 1, k>>, <<n - k, k>> >> \o StairSteps(n, k + 1)
+Lobe(n) == << <<n, 0>> >> \o StairSteps(n, 1)                         \* without the origin
+Neg(cs) == [i \in DOMAIN cs |-> <<0 - cs[i][1], 0 - cs[i][2]>>]
+FigureEight(n) == << <<0, 0>> >> \o Lobe(n) \o << <<0, 0>> >> \o Neg(Lobe(n)) \o << <<0, 0>> >>
+BigRings == << Comb(24, 0), Comb(24, 11), Comb(50, 0), Comb(50, 17), Comb(50, 49), Comb(98, 0), Comb(98, 33), Comb(300, 0), Comb(300, 151),
+               FigureEight(12), FigureEight(20), FigureEight(40), FigureEight(130) >>
 \* ---------------- Mode "rings": state = open octilinear walk (need not be simple)
 VARIABLES walk, h1, h2, done
 vars == <<walk, h1, h2, done>>
@@ -50,6 +63,7 @@ Shell2 == << <<0, 4>>, <<4, 0>>, <<8, 0>>, <<12, 4>>, <<12, 8>>, <<8, 12>>, <<4,
 Init == /\ done = FALSE /\ h2 = 0
         /\ IF Mode = "rings" THEN /\ walk \in {<<VSeq[i]>> : i \in {j \in 1 .. NV : j % Stride = Offset % Stride}}
                                   /\ h1 = 0
+           ELSE IF Mode = "bigrings" THEN walk = <<>> /\ h1 \in DOMAIN BigRings
            ELSE /\ walk = <<>> /\ h1 \in {i \in 1 .. NR : i % Stride = Offset % Stride}
 SRPos == TLCEval([i \in 1 .. NR |-> TLCEval(RingMap(SimpleRings[i], F))])
 ShPos(sh) == RingMap(sh, F)
@@ -88,6 +102,9 @@ MultiCase(a, b) ==
         valid |-> ~overlap /\ ~online, overlap |-> overlap, online |-> online,
         few |-> <<>>, self |-> <<>>, notcontained |-> <<>>, line |-> <<>>, area |-> <<>>]
 
+NextBig ==
+    /\ Mode = "bigrings" /\ ~done /\ done' = TRUE /\ walk' = walk /\ h2' = h2 /\ h1' = h1
+    /\ PrintT(<<"CASE", ToJson(RingCase(BigRings[h1]))>>)
 NextRings ==
     /\ Mode = "rings" /\ ~done
     /\ \/ /\ Len(walk) < MaxE
@@ -107,6 +124,8 @@ NextMulti ==
     /\ Mode = "multi" /\ ~done /\ done' = TRUE /\ walk' = walk
     /\ h1' = h1 /\ h2' \in 1 .. NR
     /\ PrintT(<<"CASE", ToJson(MultiCase(h1, h2'))>>)
-Next == NextRings \/ NextHoles \/ NextMulti
+Next == NextRings \/ NextHoles \/ NextMulti \/ NextBig
+\* the construction says which of the big rings are simple
+BigRingsAsBuilt == Mode = "bigrings" => (RingOK(BigRings[h1]) <=> h1 \in {1, 3, 6, 8})
 Spec == Init /\ [][Next]_vars
 =============================================================================
